@@ -344,6 +344,9 @@ PropProjectAll(ev) == PropProject(ev.err) /\ PropProject(ev.part) /\ PropResidua
 PropBackAll(ev) == PropBack(ev.err, ev.repr) /\ PropBack(ev.scan, ev.repr)
 (* outside the statement (the history of the MODEL object): a fit into a used model equals the fit into a fresh one *)
 RefitSame(ev) == ev.died = 0 /\ ev.vlen = ev.npc /\ ev.terr <= TolAlg /\ ev.perr <= TolAlg
+(* outside the statement: PCARSquared()[a] = 1 - |X - back-transformation with a components|^2 / |X - column means|^2 (the residual is formed from numbers *)
+(* of the size of X: same representability term as the back-transformation)                                                                          *)
+RSqRight(ev) == ev.died = 0 /\ ev.len = ev.npc /\ ev.err <= TolAlg + 4 * Min2(ev.repr, 100000)
 
 (* ---- input classes of a recorded fit (INPUT-CLASSES.md), computed from the Fit event by TLC and carried into coverage.classes ---------------- *)
 GenNames == {"rnd", "loc", "mag", "k5", "design", "dup", "sent"}
